@@ -62,6 +62,8 @@ class Registry:
         self.obj_method_hooks = {}  # method name -> hook(ex, recv, args, kwargs) for opaque objects (assumed behaviour with ghost effects)
         self.opaque_classes = {}  # class name -> module: classes whose __init__ only stores its parameters (checked per run)
         self.obj_uf_methods = {}  # method name on opaque objects -> uninterpreted function giving its result (for native replay)
+        self.list_terms = False    # lists built by comprehensions / sorted carry a value term (used for seed-independence reasoning)
+        self.iter_term = None      # hook(ex, object term) -> the iteration of an opaque collection as a value
         self.touch_attrs = set()   # attribute names whose values join the instantiation pool (used by universally stated class facts)
         self.spec_builtins = {}  # name -> fn(ex, call node): extra specification functions defined by a contract module
         self.class_state = {}   # (class name, attribute) -> ghost name: mutable class-level state (e.g. a global counter)
